@@ -183,3 +183,67 @@ func VerifDepthBudget() {
 	}
 	vrt.Reach("end")
 }
+
+// VerifGuards (C08): declares the lock discipline of the process-wide caches to the engine. Called once after
+// package initialisation: the two plain maps may only be accessed, and the descriptor hash map only be
+// written, with sdsmu held.
+func VerifGuards() {
+	mu := unsafe.Pointer(&sdsmu)
+	vrt.GuardedBy(mu, *(*unsafe.Pointer)(unsafe.Pointer(&ttypes)))
+	vrt.GuardedBy(mu, *(*unsafe.Pointer)(unsafe.Pointer(&prefetchStructDescCache)))
+	vrt.GuardedBy(mu, unsafe.Pointer(sds))
+}
+
+// VerifDescMapProtocol (C08): the read-lock-free descriptor map under arbitrary keys (same-bucket collisions
+// included): Get returns exactly what the last Set for that key stored; a snapshot a reader obtained before a
+// Set is never modified afterwards (copy-on-write; the engine flags any store to memory published through an
+// atomic pointer); Set of an unchanged mapping does not republish.
+func VerifDescMapProtocol() {
+	m := newMapStructDesc()
+	bk := []uintptr{0, 1, mapStructDescBuckets}
+	key := func(name string) uintptr {
+		return uintptr(vrt.U32(name))<<16 | bk[vrt.Choice(name+".bucket", len(bk))]
+	}
+	k1, k2, k3 := key("k1"), key("k2"), key("k3")
+	sd1, sd2, sd3 := &structDesc{maxID: 1}, &structDesc{maxID: 2}, &structDesc{maxID: 3}
+	vrt.Check(m.Get(k1) == nil, "C08 empty map has no entry")
+	m.Set(k1, sd1)
+	// a concurrent reader takes its snapshot of k1's slot now
+	snap := m.slots[k1&mapStructDescBuckets].Load()
+	var before []mapStructDescItem
+	if snap != nil {
+		before = append(before, (*snap)...)
+	}
+	m.Set(k2, sd2)
+	m.Set(k1, sd3)
+	m.Set(k3, sd1)
+	m.Set(k3, sd1) // no-op
+	// the old snapshot is intact
+	if snap != nil {
+		vrt.Check(len(*snap) == len(before), "C08 a published slot is never resized in place")
+		for i := range before {
+			vrt.Check((*snap)[i] == before[i], "C08 a published slot is never modified in place")
+		}
+	}
+	// functional behaviour for every key
+	want := func(k uintptr) *structDesc {
+		var r *structDesc
+		if k == k1 {
+			r = sd3
+		}
+		if k == k2 {
+			r = sd2
+			if k1 == k2 {
+				r = sd3 // k1 was set again after k2
+			}
+		}
+		if k == k3 {
+			r = sd1
+		}
+		return r
+	}
+	for _, k := range []uintptr{k1, k2, k3, key("probe")} {
+		vrt.Check(m.Get(k) == want(k), "C08 Get returns the descriptor last stored for exactly that key")
+	}
+	vrt.Reach("end")
+}
